@@ -326,7 +326,7 @@ func checkC04(p *Prog, r *Report) {
 		for _, f := range classifierFamily(p) {
 			fam[f] = true
 		}
-		r.borrow("C06", "C04", func() { c06FunctionRule(p, r, fam) })
+		r.borrow("C06", "C04", func() { c06FunctionRule(p, r, fam); c06Lwt(p, r, fam) })
 	}
 
 	// ---- retry-guard
@@ -640,6 +640,19 @@ func c04Prepared(p *Prog, r *Report, rr *reqRoles) {
 			}
 			nstores++
 			var sb []string
+			// the verdict recorded for an id is that of the LATEST PREPARE answered with it: the function
+			// that stores does not look at what is already stored (no first-wins, no "already known")
+			for _, f2 := range withClosures(rootFn(fn)) {
+				eachCall(f2, func(c2 ssa.CallInstruction) {
+					for _, m := range []string{"Load", "LoadOrStore", "LoadAndDelete"} {
+						if callIsMethod(c2, "sync", "Map", m) {
+							if fa2, ok := c2.Common().Args[0].(*ssa.FieldAddr); ok && fieldOfAddr(fa2) == pmF {
+								sb = append(sb, fmt.Sprintf("%s: the function that records the verdict consults the stored metadata (%s): an id that was first prepared with an idempotent text keeps that verdict when a later PREPARE defines it with a non-idempotent one", p.Pos(c2.Pos()), m))
+							}
+						}
+					}
+				})
+			}
 			// value: MakeInterface of a preparedMetadata struct whose 'idempotent' field derives from IsQueryIdempotent #0
 			val := c.Common().Args[2]
 			var clsCall *ssa.Call
